@@ -239,7 +239,11 @@ example : (runC Dynar.new [.push 1, .unshift 2, .insertAt 1 3, .set 5 9, .remove
 /-!
 Part 2: xbt_dict refines an association map, **for every hash function `h`**.  The abstract map is the relation
 `Bound d k v` ("k is bound to v"); `DInv` is the representation invariant (table size a power of two, every element
-sits in the cell its hash selects under the current mask, keys distinct along a chain).
+sits in the cell its hash selects under the current mask, keys distinct along a chain).  `CInv` is the counter
+invariant (`count` = number of stored elements, `fill` = number of non-empty cells); it is kept by set / remove /
+rehash from every state (`dict_counters_*`), and with `DInv` + the refinement relation it makes `count` the size of
+the specification map (`dict_count_size_of_inv`).  `dict_refines_assoc` (∀ h, ∀ histories) is the FULL statement:
+get, cursor, `xbt_dict_length`/`is_empty` and `fill`; `dict_refines_assoc_partial` is its former, weaker form.
 -/
 
 /-- a fresh dict satisfies the invariant and binds nothing -/
